@@ -324,6 +324,51 @@ theorem validity_preserved (l : List (Eff × Bool × (K → K) × Option K))
 
 end validity
 
+/-! ## the whole state over any history -/
+
+section history
+variable {K : Type} [Field K]
+
+/-- one call of a method that does not claim to change validity (an entry of the TRANSLATED `keepers` table) leaves the validity
+    of every stored sample as it was, whatever samples it addresses and whatever finite values it subtracts -/
+theorem keeper_call_keeps_validity (m : List (Eff × Bool × (K → K) × Option K))
+    (hm : m.map Prod.fst ∈ Generated.C12.keepers.map Prod.snd) (d : Option K) :
+    (m.foldl sampleStep d).isSome = d.isSome := by
+  obtain ⟨e, he, hee⟩ := List.mem_map.mp hm
+  have hk : KeepsValidity (m.map Prod.fst) = true := by
+    have := List.all_eq_true.mp keepers_keepValidity e he
+    rw [← hee]; exact this
+  exact validity_preserved m hk d
+
+/-- **the whole state over any history**: after ANY sequence of calls of methods of the current source (any length, interleaving,
+    arguments, addressed samples), (1) the coordinate state is coherent, and (2) the validity of every stored sample is what it
+    was before the first call of the sequence, as long as no call of {mask, fill, spike_clip, crop, pad, filter} occurs in it — by
+    induction over the history, from the two translated tables -/
+theorem history_coherent_and_validity
+    (ops : List (List (Eff × Bool × (K → K) × Option K) × Env K))
+    (hops : ∀ o ∈ ops, o.1.map Prod.fst ∈ Generated.C12.table.map Prod.snd) (s0 : State K) (h0 : Inv s0) (d0 : Option K) :
+    Inv (ops.foldl (fun s o => run o.2 s (o.1.map Prod.fst)) s0) ∧
+    ((∀ o ∈ ops, o.1.map Prod.fst ∈ Generated.C12.keepers.map Prod.snd) →
+      (ops.foldl (fun d o => o.1.foldl sampleStep d) d0).isSome = d0.isSome) := by
+  constructor
+  · have := inv_reachable (K := K) (ops.map fun o => (o.1.map Prod.fst, o.2))
+      (by intro o ho; obtain ⟨o', ho', rfl⟩ := List.mem_map.mp ho; exact hops o' ho') s0 h0
+    rwa [List.foldl_map] at this
+  · intro hk
+    induction ops generalizing d0 with
+    | nil => rfl
+    | cons o rest ih =>
+      rw [List.foldl_cons]
+      rw [ih (fun o' ho' => hops o' (List.mem_cons_of_mem _ ho')) _ (fun o' ho' => hk o' (List.mem_cons_of_mem _ ho'))]
+      exact keeper_call_keeps_validity o.1 (hk o List.mem_cons_self) d0
+
+/-- non-vacuity: `remove_piston` is a method of both translated tables, so histories satisfying both hypotheses exist -/
+example : Generated.C12.eff_remove_piston ∈ Generated.C12.keepers.map Prod.snd ∧
+    Generated.C12.eff_remove_piston ∈ Generated.C12.table.map Prod.snd := by
+  constructor <;> simp [Generated.C12.keepers, Generated.C12.table]
+
+end history
+
 /-! ## statistics over the valid samples (any ordered field; `ℝ` for the square-root forms) -/
 
 section stats
